@@ -13,6 +13,11 @@ histories: besides the families of (mostly independent) requests, structured mul
          that keep state between requests, derived from the model: SecurityAccess over every ordered pair / triple of
          the levels a session offers (in every session that offers one), consecutive DiagnosticSessionControl,
          RoutineControl start/stop/results, RequestDownload/Upload-TransferData-Exit (see `stateful_histories`).
+objects  : all of the above hand a fresh request object to the client for every exchange.  Family "reused-objects"
+         (`reuse_plans`): request objects a script KEEPS -- one RawRequest whose `pdu` is reassigned between sends, typed
+         requests whose public fields are reassigned, the same object sent twice unchanged, two objects of equal
+         content, an object sent / changed / sent / changed back / sent -- through UDSClient.request() and against
+         helpers.parse_pdu directly; every answer must be accepted as the answer to the bytes that were really sent.
 """
 
 from __future__ import annotations
@@ -330,6 +335,99 @@ def static_sa_histories(m: C.Model, sess: int, suppress: bool = True) -> list[by
     return out
 
 
+# ------------------------------------------------------------------ re-used request objects
+# A3 says "accepted as the answer to exactly THAT request": the request of an exchange is what was sent, whatever the
+# object that carried it contained at an earlier exchange.  A send is (object key within the plan, content, typed):
+# the first send of a key creates the object (RawRequest(content) / UDSRequest.parse_dynamic(content)), a later one
+# with another content assigns it through the public API of the class (K.assign_content) and sends the SAME object.
+Reuse = tuple[int, bytes, bool]
+
+
+def reuse_pool(m: C.Model, sess: int, rnd: random.Random, n: int) -> list[bytes]:
+    """Requests whose answers differ in what a client can look at: every service the session offers (every offered
+    sub-function of the sub-function services), identifiers / sessions answered positively, services of other
+    sessions, an unknown service, a missing sub-function, suppressed answers, plus a sample of the codec generators."""
+    here = m.get(sess, {})
+    pool: list[bytes] = [bytes([E.SID_TP, 0x00]), bytes([E.SID_RDBI, 0xF1, 0x86]), bytes([E.SID_RDBI, 0x12, 0x34]),
+                         bytes([E.SID_RDBI, 0x43, 0x21]), bytes([E.SID_RDBI, 0xF1, 0x86, 0x12, 0x34]),
+                         bytes([0x2E, 0x12, 0x34, 0x0A]), bytes([0x2E, 0xF1, 0x90, 0x01, 0x02]), bytes([0x85]),
+                         bytes([E.SID_TP, 0x80]), bytes([E.SID_DSC, C.unoffered_session(m)]), bytes([E.SID_DSC, sess])]
+    for sid in sorted(here):
+        subs = here[sid]
+        if subs is None:
+            pool += [bytes([sid]) + rnd.randbytes(2), bytes([sid]) + rnd.randbytes(3)]
+            continue
+        for sub in pick_levels(sorted(subs), 4, rnd):
+            if sid == E.SID_SA and sub % 2 == 0:
+                continue  # a key needs the seed of an earlier answer
+            for tail in C.valid_tails(sid, sub)[:2]:
+                pool.append(bytes([sid, sub]) + tail)
+    known = {sid for v in m.values() for sid in v}
+    pool += [bytes([sid, 0x01, 0x02]) for sid in sorted(known - set(here))[:2]]
+    pool.append(bytes([next(x for x in (0xBA, 0x84, 0x29, 0x3B) + tuple(range(1, 0x3E)) if x not in known), 0x01]))
+    pool += [x for x in C.model_aware_valid(m, sess, rnd, n) if not callable(x)]
+    pool += C.structured_valid(rnd, n)
+    out: list[bytes] = []
+    for x in pool:
+        if x and x not in out:
+            out.append(bytes(x))
+    return out
+
+
+def reuse_plans(m: C.Model, sess: int, rnd: random.Random, *, n_pool: int, k_chain: int,
+                n_small: int) -> list[tuple[str, list[Reuse]]]:
+    pool = reuse_pool(m, sess, rnd, n_pool)
+    plans: list[tuple[str, list[Reuse]]] = []
+    # (a) one RawRequest, `pdu` reassigned before every send
+    sh = list(pool)
+    rnd.shuffle(sh)
+    for i in range(0, len(sh), k_chain):
+        plans.append(("raw-reassigned", [(0, x, False) for x in sh[i:i + k_chain]]))
+    # (b) one typed request per request class, its public fields reassigned before every send
+    groups: dict[str, list[bytes]] = {}
+    for x in pool:
+        r = K.as_request(x, True)
+        if not isinstance(r, K.service.RawRequest):
+            groups.setdefault(type(r).__name__, []).append(x)
+    same_class: list[tuple[bytes, bytes]] = []
+    for name in sorted(groups):
+        ps = groups[name]
+        if len(ps) < 2:
+            continue
+        for i in range(0, len(ps), k_chain):
+            chain = ps[i:i + k_chain] if len(ps) - i >= 2 else ps[-2:]
+            plans.append(("typed-reassigned", [(0, x, True) for x in chain]))
+        same_class += [(ps[j], ps[(j + 1) % len(ps)]) for j in range(len(ps))]
+    # (c) small shapes over pairs of contents (a, b): raw over any pair, typed over pairs of one request class
+    raw_pairs = [tuple(rnd.sample(pool, 2)) for _ in range(n_small)]
+    typed_pairs = same_class if len(same_class) <= n_small else rnd.sample(same_class, n_small)
+    for typed, pairs in ((False, raw_pairs), (True, typed_pairs)):
+        for a, b in pairs:
+            plans.append(("unchanged-twice", [(0, a, typed), (0, a, typed), (1, b, typed), (1, b, typed)]))
+            plans.append(("equal-content", [(0, a, typed), (1, a, typed), (2, b, typed), (3, b, typed), (0, a, typed)]))
+            plans.append(("there-and-back", [(0, a, typed), (0, b, typed), (0, a, typed), (0, b, typed)]))
+    return plans
+
+
+async def run_reuse_plans(p: Any, m: C.Model, home: int, plans: list[tuple[str, list[Reuse]]], *,
+                          direct: bool) -> list[dict[str, Any]]:
+    sender = K.ObjectSender(p, direct=direct)
+
+    async def nav(pdu: bytes) -> None:
+        await sender.send(K.service.RawRequest(pdu), "fresh")
+
+    for label, sends in plans:
+        await go_home(m, p.state()[0], home, nav)
+        objs: dict[int, Any] = {}
+        for key, content, typed in sends:
+            if key not in objs:
+                objs[key] = K.as_request(content, typed)
+            elif bytes(objs[key].pdu) != content and not K.assign_content(objs[key], content):
+                break  # this class does not offer the assignment: nothing is claimed about the object
+            await sender.send(objs[key], label)
+    return sender.steps
+
+
 # ------------------------------------------------------------------ server mutants (binding self-test)
 def mutant_servers() -> dict[str, Any]:
     class HandlerRaises(srv.RandomUDSServer):  # one request kind whose handler raises
@@ -366,6 +464,7 @@ async def drive(tier: str, seed: int, corpus: E.Corpus, info: dict[str, Any], *,
     quick = tier == "quick"
     rnd = random.Random(seed + 1400)
     rnd_h = random.Random(seed + 1402)  # the structured histories draw from their own stream
+    rnd_o = random.Random(seed + 1404)  # so do the re-used request objects
     seeds = range(0, 2) if small else (range(0, 3) if quick else range(0, 10))
     counts = {"direct": 0, "direct-stateful": 0, "client": 0, "client-stateful": 0, "tcp": 0, "run": 0}
     models = []
@@ -422,6 +521,15 @@ async def drive(tier: str, seed: int, corpus: E.Corpus, info: dict[str, Any], *,
             counts["direct-stateful"] += len(steps)
             corpus.add(m=mi, B=E.ALL, mode="A", steps=steps,
                        meta=dict(meta, origin="direct", home=sess, family="stateful"))
+        # ---- (1c) re-used request objects, the reply judged by helpers.parse_pdu(reply, <the object that was sent>)
+        if not small:
+            for sess in pick_sessions(m, 1 if quick else 3):
+                plans = reuse_plans(m, sess, rnd_o, n_pool=12 if quick else 80, k_chain=8, n_small=4 if quick else 24)
+                p.fresh(E.ALL)
+                steps = await run_reuse_plans(p, m, sess, plans, direct=True)
+                counts["direct-reused"] = counts.get("direct-reused", 0) + len(steps)
+                corpus.add(m=mi, B=E.ALL, mode="A", steps=steps,
+                           meta=dict(meta, origin="direct", home=sess, family="reused-objects"))
     info["counts"] = counts
     info["_models"] = models
 
@@ -431,6 +539,7 @@ def drive_client_and_tcp(tier: str, seed: int, corpus: E.Corpus, info: dict[str,
     quick = tier == "quick"
     rnd = random.Random(seed + 1401)
     rnd_h = random.Random(seed + 1403)
+    rnd_o = random.Random(seed + 1405)
     models = info.pop("_models")
     counts = info["counts"]
 
@@ -497,6 +606,20 @@ def drive_client_and_tcp(tier: str, seed: int, corpus: E.Corpus, info: dict[str,
             corpus.add(m=mi, B=E.ALL, mode="A", steps=steps,
                        meta=dict(meta, origin="client", home=sess, family="stateful"))
 
+        # ---- (2c) re-used request objects through the real UDSClient.request()
+        for sess in ([] if small else pick_sessions(m, 1 if quick else 3)):
+            plans = reuse_plans(m, sess, rnd_o, n_pool=12 if quick else 80, k_chain=8, n_small=4 if quick else 24)
+
+            async def client_reuse_part() -> list[dict[str, Any]]:
+                p = K.ReplyProbe(s)
+                p.fresh(E.ALL)
+                return await run_reuse_plans(p, m, sess, plans, direct=False)
+
+            steps = vloop.run(client_reuse_part())
+            counts["client-reused"] = counts.get("client-reused", 0) + len(steps)
+            corpus.add(m=mi, B=E.ALL, mode="A", steps=steps,
+                       meta=dict(meta, origin="client", home=sess, family="reused-objects"))
+
         if True:
             async def tcp_part() -> list[dict[str, Any]]:
                 s.state = type(s.state)()
@@ -548,6 +671,8 @@ def collect(corpus: E.Corpus, parallel: int = 6) -> tuple[dict[int, tuple[str, l
             st = t["steps"][idx - 1]
             sig = {"exc": st["x"], "sid": st["q"][0], "path": t["meta"].get("origin", "?"), "acc": st["a"],
                    "len_class": "1" if st["n"] == 1 else ("2" if st["n"] == 2 else ("<=8" if st["n"] <= 9 else ">8"))}
+            if st.get("reuse"):  # family "reused-objects": how the object that carried the request was re-used
+                sig["request_object"] = st["reuse"] + ("/typed" if st.get("typed") else "/raw")
             key = json.dumps([label, sig], sort_keys=True)
             a = agg.setdefault(key, {"label": label, "sig": sig, "n": 0, "detail": None})
             a["n"] += 1
@@ -556,6 +681,8 @@ def collect(corpus: E.Corpus, parallel: int = 6) -> tuple[dict[int, tuple[str, l
                 start = t["init"] if lo == 0 else {"s": t["steps"][lo - 1]["s"], "l": t["steps"][lo - 1]["l"]}
                 a["detail"] = {"meta": t["meta"], "start_state": start,
                                "requests": [s["hex"] for s in t["steps"][lo:idx]],
+                               **({"objects": [[s.get("obj", -1), bool(s.get("typed"))] for s in t["steps"][lo:idx]]}
+                                  if t["meta"].get("family") == "reused-objects" else {}),
                                "failing": dict({k: st[k] for k in ("rhex", "x", "s", "l", "a", "al")}, hex=st["hex"][:64])}
     return verdicts, agg
 
@@ -623,6 +750,22 @@ def run(tier: str, seed: int) -> Report:
     rep.extra["positive_replies"] = sum(1 for t in corpus.traces for s in t["steps"]
                                         if s["vk"] == "bytes" and s["vb"][0] != 0x7F)
     rep.extra["max_request_len"] = max(s["n"] for t in corpus.traces for s in t["steps"])
+    # family "reused-objects": how many exchanges would have been judged differently against the content the same
+    # object had at its previous exchange (the family is blind to a client that looks at anything but the current
+    # content of the object if there are none)
+    reused = [s for t in corpus.traces if t["meta"].get("family") == "reused-objects" for s in t["steps"]]
+    rep.extra["reused_objects"] = {
+        "exchanges": len(reused), "with_changed_content_where_the_old_content_would_be_rejected": {
+            o + "/" + k: sum(1 for t in corpus.traces if t["meta"].get("family") == "reused-objects"
+                             and t["meta"].get("origin") == o for s in t["steps"]
+                             if s.get("stale") and bool(s.get("typed")) == (k == "typed"))
+            for o in ("direct", "client") for k in ("raw", "typed")},
+        "shapes": sorted({s.get("reuse", "") for s in reused})}
+    disc = rep.extra["reused_objects"]["with_changed_content_where_the_old_content_would_be_rejected"]
+    # (typed requests without assignable fields would be a legitimate design: their two counts are informational)
+    if K.assign_content(K.service.RawRequest(b"\x3e\x00"), b"\x10\x01") and not rep.violations \
+            and (disc["direct/raw"] == 0 or disc["client/raw"] == 0):
+        raise Machinery(f"family reused-objects does not discriminate: {rep.extra['reused_objects']}")
     rep.exhaustive = False
     for name, job in jobs.items():
         res = job.result()
@@ -714,6 +857,17 @@ def replay(path: str) -> int:
                 s.state.session = d["start_state"]["s"]
                 nav = []
             pdus = [bytes([0x10, t]) for t in nav] + [bytes.fromhex(h) for h in d["requests"]]
+            if meta.get("family") == "reused-objects":  # the recorded requests with the recorded object identities
+                sender = K.ObjectSender(K.ReplyProbe(s), direct=meta.get("origin") == "direct")
+                for t in nav:
+                    await sender.send(K.service.RawRequest(bytes([0x10, t])), "fresh")
+                objs: dict[int, Any] = {}
+                for h, (o, typed) in zip(d["requests"], d.get("objects") or [[-1, False]] * len(d["requests"])):
+                    content = bytes.fromhex(h)
+                    if o not in objs or o < 0 or (bytes(objs[o].pdu) != content and not K.assign_content(objs[o], content)):
+                        objs[o] = K.as_request(content, typed)
+                    await sender.send(objs[o], "replay")
+                return sender.steps
             if meta.get("origin") == "tcp":
                 return await K.TcpLoop(s).history(pdus)
             p = K.ReplyProbe(s)
